@@ -79,7 +79,7 @@ func RunFreeOne(s *Scenario, p Params) *ObsRec {
 		if s.Setup != nil {
 			s.Setup(x, p)
 		}
-	}, func(x *vs.Exec) { x.SetFine(p["fine"] == "1"); s.Body(x, p) }, w)
+	}, func(x *vs.Exec) { x.SetFine(p["fine"] == "1"); x.SetNoTime(p["notime"] == "1"); s.Body(x, p) }, w)
 	obs := x.Observations()
 	sort.Strings(obs)
 	return &ObsRec{Scen: s.Name, Params: p, Obs: obs, Viol: x.Violations()}
@@ -228,7 +228,7 @@ func RunOne(s *Scenario, p Params, prefix []int, hash uint64, trace bool) *vs.Ex
 				s.Setup(x, p)
 			}
 		},
-		func(x *vs.Exec) { x.SetFine(p["fine"] == "1"); s.Body(x, p) })
+		func(x *vs.Exec) { x.SetFine(p["fine"] == "1"); x.SetNoTime(p["notime"] == "1"); s.Body(x, p) })
 	return x
 }
 
